@@ -55,8 +55,8 @@ var Profiles = map[string]Profile{
 	"c10":    {Name: "c10", Upload: 35, Resumable: 5, Patch: 30, Delete: 8, Compose: 6, Copy: 8, GetMeta: 4, GetMedia: 4, List: 4, CondPct: 25, Names: SafeNames[:5], MinOps: 10, MaxOps: 60, ReadBack: true},
 	"c11":    {Name: "c11", Upload: 40, Delete: 8, List: 45, ListBad: 4, RmBucket: 1, CondPct: 0, Names: SafeNames, MinOps: 10, MaxOps: 40},
 	"c11mem": {Name: "c11mem", Upload: 40, Delete: 8, List: 45, ListBad: 4, CondPct: 0, Names: MemNames, MinOps: 10, MaxOps: 40},
-	"c15":    {Name: "c15", Upload: 30, Compose: 30, Copy: 25, Delete: 5, GetMeta: 3, GetMedia: 5, Patch: 5, CondPct: 15, Names: SafeNames, MinOps: 8, MaxOps: 30, ReadBack: true},
-	"c15mem": {Name: "c15mem", Upload: 30, Compose: 30, Copy: 25, Delete: 5, GetMedia: 5, CondPct: 10, Names: MemNames, MinOps: 8, MaxOps: 30, ReadBack: true},
+	"c15":    {Name: "c15", Upload: 30, Resumable: 8, Compose: 30, Copy: 25, Delete: 5, GetMeta: 3, GetMedia: 5, Patch: 5, CondPct: 15, Names: SafeNames, MinOps: 8, MaxOps: 30, ReadBack: true},
+	"c15mem": {Name: "c15mem", Upload: 30, Resumable: 8, Compose: 30, Copy: 25, Delete: 5, GetMedia: 5, CondPct: 10, Names: MemNames, MinOps: 8, MaxOps: 30, ReadBack: true},
 }
 
 type Gen struct {
@@ -254,6 +254,22 @@ func (g *Gen) Program() []core.Op {
 	var prog []core.Op
 	prog = append(prog, &Op{Kind: "mkbucket", B: "bk"})
 	p := g.P
+	if p.BigPayload > 0 {
+		// one upload per protocol, each read back
+		for i, proto := range []string{"media", "multipart"} {
+			n := p.Names[i%len(p.Names)]
+			o := &Op{Kind: "upload", B: "bk", N: n, Content: g.payload(), Declared: core.Pick(g.R, []string{"none", "ok"}), Proto: proto, Meta: Meta{CT: "application/octet-stream"}}
+			if proto == "media" {
+				o.Declared = "none"
+			}
+			prog = append(prog, o)
+			g.readBack(&prog, "bk", n)
+		}
+		n := p.Names[2%len(p.Names)]
+		prog = append(prog, g.Resumable("bk", n)...)
+		g.readBack(&prog, "bk", n)
+		return prog
+	}
 	if p.Compose > 0 && len(p.Names) >= 5 && g.R.Chance(1, 3) {
 		// aliasing probe: two composes (or a compose and a copy) that start from the same source must not
 		// disturb each other's results nor the source
